@@ -26,8 +26,10 @@ func verifC20SigState(k Keeper, ctx sdk.Context) {
 		W.auth.SetAccount(ctx, acc)
 	}
 	if verif_choice("stored", 2) == 1 {
-		k.AppendSignature(ctx, verif_str("storedKey"), types.Signature{Signature: verif_str("sig"), Algorithm: verif_str_in("alg", "ecdsaWithSha256", "md5", ""), Certificate: verif_str("cert"), Timestamp: "t"})
-		_ = k.AppendPayloadLink(ctx, verif_str("storedLinkKey"), verif_str("storedLink"))
+		sk, lk := verif_str("storedKey"), verif_str("storedLinkKey")
+		verif_assume(len(sk) > 0 && len(lk) > 0) // entries are only ever written under non-empty keys
+		k.AppendSignature(ctx, sk, types.Signature{Signature: verif_str("sig"), Algorithm: verif_str_in("alg", "ecdsaWithSha256", "md5", ""), Certificate: verif_str("cert"), Timestamp: "t"})
+		_ = k.AppendPayloadLink(ctx, lk, verif_str("storedLink"))
 	}
 }
 
